@@ -27,16 +27,18 @@ C07Viol ==
                          ELSE IF Triggered(E.rules, ts[i]) THEN "path-must-trigger-but-does-not" ELSE "path-must-not-trigger-but-does",
                sc |-> E.id, n |-> i, at |-> l]}
 
-Class(o) == IF o = "ok" THEN "ok" ELSE IF o \in {"mockDeny", "unmatchedDeny"} THEN "deny" ELSE "oidc"
+Class(o) == IF o = "ok" THEN "ok" ELSE IF o \in {"mockDeny", "unmatchedDeny"} THEN "deny" ELSE IF o = "error" THEN "notOk" ELSE "oidc"
+\* (for a filter that cannot be set up any answer that is not OK will do: a gRPC error, a denial)
+SameClass(got, want) == IF want = "notOk" THEN got # "ok" ELSE got = want
 
 C08Viol ==
   LET bad == {i \in DOMAIN inputs : LET j == Judge(E.chains, E.allowUnmatched, inputs[i])
-                                     IN E.results[i].outcome # Class(j[1]) \/ (E.results[i].oidc # -1 /\ E.results[i].oidc # j[2])}
+                                     IN ~SameClass(E.results[i].outcome, Class(j[1])) \/ (E.results[i].oidc # -1 /\ Class(j[1]) # "notOk" /\ E.results[i].oidc # j[2])}
   IN IF bad = {} THEN {}
      ELSE LET i == CHOOSE j \in bad : \A k \in bad : j <= k
               j == Judge(E.chains, E.allowUnmatched, inputs[i])
           IN {[p |-> "C08", m |-> "FirstMatchingChain",
-               cause |-> IF E.results[i].outcome # Class(j[1]) THEN "expected-" \o Class(j[1]) \o "-got-" \o E.results[i].outcome
+               cause |-> IF ~SameClass(E.results[i].outcome, Class(j[1])) THEN "expected-" \o Class(j[1]) \o "-got-" \o E.results[i].outcome
                          ELSE "evaluation-did-not-stop-at-first-denial-or-skipped-a-filter",
                sc |-> E.id, n |-> i, at |-> l]}
 
